@@ -198,9 +198,11 @@ class Runnable(ABC):  # pylint: disable=too-many-instance-attributes
         """
         Stop the service, allowing any do() to complete first.
         """
+        # set the shutdown flag first: a loop that sees __stopping must already see whether the stop is final,
+        # otherwise it can exit without calling done()
+        self.__shutdown = forever
         self.__stopping = True
         self.wake()
-        self.__shutdown = forever
         thread = self.__thread  # otherwise race condition -- self.__thread can change value in another thread
         if thread:
             if threading.current_thread() != thread:
